@@ -27,11 +27,11 @@ func main() {
 	defer out.Close()
 	g := &pk.Gen{Out: out, Rng: sx.NewRng(sx.EnvSeed()), Thorough: *tier == "thorough", Want: map[int]bool{}}
 	families := map[string][]string{
-		"C02": {"one-packet", "cut1", "cut2", "cutmany", "fixed", "allcuts", "history-register", "complete", "reads-1-byte", "reads-random", "header-split"},
+		"C02": {"one-packet", "cut1", "cut2", "cutmany", "cut-ho", "fixed", "allcuts", "history-register", "complete", "reads-1-byte", "reads-random", "header-split"},
 		"C03": {"history", "history-register", "consumer", "one-packet"},
-		"C07": {"history", "cutmany", "fixed"},
+		"C07": {"history", "history-register", "cutmany", "cut-ho", "fixed"},
 		"C10": {"malformed", "malformed-continue", "wire-fuzz"},
-		"C11": {"one-packet", "cut1", "cutmany", "history", "history-register", "consumer"},
+		"C11": {"one-packet", "cut1", "cutmany", "cut-ho", "history", "history-register", "consumer"},
 		"C14": {"cut-offset", "reads-random-cut", "complete", "cut-timeout", "drain-cut", "write-fail"},
 	}
 	if fs, ok := families[*prop]; ok {
